@@ -194,7 +194,7 @@ def run_case(case):
     monitors.LOOP_LOG.clear()
     prog = case["prog"]
     twin = twins.unroll_loops(prog)
-    res = sem.run_twin_case(case, prog, {}, twin, {}, label_a="loop", label_b="unrolled",
+    res = sem.run_twin_case_relative(case, prog, {}, twin, {}, label_a="loop", label_b="unrolled",
                             reference=not case.get("memory"))
     res.setdefault("monitors", {})
     res["monitors"]["loop_expansions"] = len(monitors.LOOP_LOG)
